@@ -141,16 +141,20 @@ ADDENDA = {
     "C01": " Requests that would be labelled HTTP/1.1 are labelled HTTP/1.0 in one case out of six (same connections, same body expected at the server). In the body-adapter leg one handler in eleven passes the received request body through as its response body (a Body around hyper's incoming stream, never collected). One request in ten over HTTP/1.1 uses the CONNECT method (authority-form target checked by the handler, refused with 403 and an ordinary body); the client's transport and every clone of a connection's handler service are not ready for 0-2 polls.",
     "C02": " In a third of the configurations the holder of a connection polls readiness through the pooled handle before it sends (as ConnectionExt::when_ready does); in a quarter the connection's poll_ready does not notice a close (is_open does); in a third the pooling service is built through ConnectionPoolLayer with one or two configuration calls. The operation set includes spurious wake-ups of whoever waits for a busy connection (hand-back tasks must ask the connection again). The pool is built on the runtime that uses it, on an earlier runtime that is gone, or outside any runtime.",
     "C05": " A connection flavour whose poll_ready hides a close (always Ok, as the crate's own mock connection) while is_open reports it is part of the configurations.",
-    "C06": " The origin table also holds three URIs without a scheme (authority-form): they are refused or kept apart, never merged with the http origin of the same authority. In a third of the near-miss cases the pool is keyed by a user-written key type whose hash is coarser than its equality.",
+    "C06": " The origin table also holds three URIs without a scheme (authority-form): they are refused or kept apart, never merged with the http origin of the same authority. In a third of the near-miss cases the pool is keyed by a user-written key type whose hash is coarser than its equality. Origins with ports beyond 65535 (accepted by http::Uri) are part of the table.",
     "C07": " A further leg (engine sigedge) uses raw HTTP/1.1 and hand-framed HTTP/2 clients whose complete request is written in the very instant of the signal (the connection task sees request and shutdown in one poll), one instant earlier or later: a request written by the instant of the signal on a connection accepted before it gets its full response, every connection is closed, the serving future resolves at the signal. The accepted streams of that leg count what the server reads: a request written in the very instant of the signal counts as in flight only if the server has read from its connection.",
     "C03": " Connect and handshake futures come in a fused flavour: polled again after completion they answer Pending for ever instead of failing at once.",
-    "C04": " Idle timeouts that are not a whole number of seconds (999 ms, 1.9 s, 90.5 s) are part of the configurations: the reuse rules apply to them while the whole case is younger than a third of the timeout in real time.",
+    "C04": " Idle timeouts that are not a whole number of seconds (999 ms, 1.9 s, 90.5 s) are part of the configurations: the reuse rules apply to them while the whole case is younger than a third of the timeout in real time. A real-time HTTP/2 leg (engine rtpool): three to five rounds of 1-3 concurrent HTTP/2 requests with pauses of 5 / 70 ms under an idle timeout of 250 ms; when every request finished less than the timeout after the previous one was issued, exactly one connection may have been opened.",
     "C08": " The scripted stream delivers to its peer only what was flushed (or written before a shutdown), as a TLS session does: output that a wrapper fails to flush is missing from the transcript. A further leg (engine srvsniff) compares servers built through Server::builder() - with_auto_http() against with_http1() / with_http2() - over the same scripted stream from a one-connection acceptor, with the client pausing after a generated part of its bytes: what the client has received is compared at both pauses and in the end.",
-    "C17": " The stub transport and protocol of the pooled-service and connector legs answer Pending from poll_ready for 0-2 polls before they are ready.",
+    "C17": " The stub transport and protocol of the pooled-service and connector legs answer Pending from poll_ready for 0-2 polls before they are ready. The resolver of the TCP leg keeps its readiness in the value that was polled and panics when called unready (as tower::limit services do): a request that dies of it is a violation.",
+    "C09": " The capped make-service keeps its readiness in the value that was polled (a clone starts unready) and the server is also built with_connection_info(): a make-service value called without having been polled ready itself is a violation.",
+    "C10": " A pacing leg over real sockets (hanging or refused candidates first, a live one last, concurrency 0-2) makes the outcome hinge on stagger = timeout / number of addresses.",
+    "C11": " A pacing leg over real sockets (hanging or refused candidates first, a live one last, concurrency 0-2) makes the outcome hinge on stagger = timeout / number of addresses.",
+    "C18": " The stream-pair leg also issues vectored writes whose slices may be empty (the first one included).",
     "C14": " (a') a holder's release that destroys an open single-use connection on the spot while a polled request waits for its own dial is a violation whatever max_idle_per_host is (0 included).",
     "C15": " The pooling service is built through ConnectionPoolService::new or through ConnectionPoolLayer with with_pool / with_optional_pool / without_pool in one or two calls: the configuration given last must be the one enforced.",
-    "C16": " Link-local IPv6 answers with interface scope and flow label are part of the sort leg (set_port must keep everything but the port); where the machine has a link-local address, a listener on it is reached only if the scoped address of the resolver's answer is the address tried.",
-    "C20": " A lazy-handshake leg (engine snilazy) drives Acceptor::with_tls + TlsConnectionInfoLayer + ValidateSNI without a Server: requests handed to the connection's service before the handshake completes are polled and dropped, or kept; every request that completes - before or after - is forwarded with the validated mark iff its host equals the server name.",
+    "C16": " Link-local IPv6 answers with interface scope and flow label are part of the sort leg (set_port must keep everything but the port); where the machine has a link-local address, a listener on it is reached only if the scoped address of the resolver's answer is the address tried. URI hosts are names or IP literals: with a custom resolver the resolver's answer is what is tried either way.",
+    "C20": " A lazy-handshake leg (engine snilazy) drives Acceptor::with_tls + TlsConnectionInfoLayer + ValidateSNI without a Server: requests handed to the connection's service before the handshake completes are polled and dropped, or kept; every request that completes - before or after - is forwarded with the validated mark iff its host equals the server name. A fifth of the lazy-handshake cases use a client that sends no server name: nothing may be forwarded on such a connection.",
 }
 
 def main():
